@@ -11,8 +11,8 @@ def tu_check(tu):
     f1, n1 = ss.compare_c(facts)
     f2, n2 = ss.type_names(tu)
     f3, emb = changed.embedded_leaf(tu)
-    from ..rules import samevalue
-    f1 = f1 + samevalue.analyse_tu(tu)["findings"]
+    from ..rules import samevalue, sepguard
+    f1 = f1 + samevalue.analyse_tu(tu)["findings"] + sepguard.c_check(tu)["findings"]
     return dict(findings=f1 + f2 + [x for x in f3 if x["function"] == "BTree_getstate"],
                 facts=facts, n=n1 + n2, embed=emb, dtype=convert.dtype_row(tu))
 
@@ -61,7 +61,7 @@ def fix_pickle(res):
 
 def run(tier="quick", seed=0, use_cache=True):
     res = engine.Result("C06")
-    res.rules = ["STATE-SHAPE", "TYPE-NAMES", "DTYPE-TABLE", "EMBEDDED-LEAF", "PY-NATIVE-CALL", "SAME-VALUE"]
+    res.rules = ["STATE-SHAPE", "TYPE-NAMES", "DTYPE-TABLE", "EMBEDDED-LEAF", "PY-NATIVE-CALL", "SAME-VALUE", "SEP-REFRESH"]
     res.explanation = (
         "The shape of a node's serialized state is fixed by a handful of code "
         "facts: Py_BuildValue / PyArg_ParseTuple formats, tuple sizes, the "
@@ -92,8 +92,9 @@ def run(tier="quick", seed=0, use_cache=True):
     # stored values must be the normalised plain values, or the Python
     # pickles differ from the C ones (bool / int subclasses / Fractions)
     convert.check_py_native(res)
-    from ..rules import samevalue
+    from ..rules import samevalue, sepguard
     samevalue.py_check(res)
+    sepguard.py_check(res)
     # the Python embedded-leaf guard (shared with C04)
     tmp = engine.Result("C06")
     pychanged.check(tmp)
